@@ -604,7 +604,17 @@ pub enum CutClass {
 pub fn classify_cut(body: &[u8], spans: &[Span], cut: usize) -> CutClass {
     for s in spans {
         match &s.kind {
-            SpanKind::Comment | SpanKind::Bogus | SpanKind::Doctype | SpanKind::CData => {
+            SpanKind::CData => {
+                // the tokenizer returns an unfinished CDATA *section* as a text token containing '<', which the filter
+                // holds back until more input arrives: a chunk boundary after the complete opener loses no context
+                // on the unchanged tree. Only a boundary inside the opener `<![CDATA[` itself does (the truncated
+                // opener is returned as a finished bogus comment).
+                let inner_has_markup = body[(s.start + 1).min(body.len())..s.end.min(body.len())].contains(&b'<');
+                if s.start < cut && cut < s.start + 9 && (cut < s.end || (s.open_ended && cut == s.end)) && (inner_has_markup || s.open_ended) {
+                    return CutClass::Context;
+                }
+            }
+            SpanKind::Comment | SpanKind::Bogus | SpanKind::Doctype => {
                 let inner_has_markup = body[(s.start + 1).min(body.len())..s.end.min(body.len())].contains(&b'<');
                 if s.start < cut && (cut < s.end || (s.open_ended && cut == s.end)) && (inner_has_markup || s.open_ended) {
                     return CutClass::Context;
@@ -656,6 +666,11 @@ pub const HTML_PATHS: &[&[&str]] = &[
     &["html", "head", "meta"],
     &["html", "body", "div", "div"],
     &["html"],
+    // raw-text elements as the filter's target (their closing tag is recognised by the raw-text reader, not by the
+    // ordinary tag reader)
+    &["html", "head", "style"],
+    &["html", "head", "script"],
+    &["html", "body", "noscript"],
 ];
 
 pub const SELECTORS: &[Option<&str>] = &[
